@@ -20,6 +20,26 @@ type c08Fill struct {
 	Other string `json:"other"`
 }
 
+// c08FillOpt: the same datum with encoding options in the tags (they name the key, nothing else)
+type c08FillOpt struct {
+	K     any    `json:"k,omitempty"`
+	Other string `json:"other,omitempty"`
+}
+
+// c08FillEmb: the key is a promoted field of an embedded struct
+type c08FillBase struct {
+	K any `json:"k"`
+}
+type c08FillEmb struct {
+	c08FillBase
+	Other string `json:"other"`
+}
+
+type c08FillOptInt struct {
+	K     int    `json:"k,omitempty"`
+	Other string `json:"other,omitempty"`
+}
+
 type c08Case struct {
 	Part string `json:"part"` // presence | history
 	// presence
@@ -51,6 +71,13 @@ func c08Val(typ string, src int) (goVal any, yaml string, printed string) {
 	case "list":
 		s := "l" + c08Src[src]
 		return []any{s}, "[" + s + "]", s
+	case "zerofill":
+		// Fill gives the zero value of its type (0): a value like any other, not an absent key
+		if src == 1 {
+			return 0, "0", "0"
+		}
+		s := "v" + c08Src[src]
+		return s, s, s
 	case "nilfill":
 		// Fill mentions the key with a nil value: the key is defined (as nothing), not absent
 		if src == 1 {
@@ -67,8 +94,14 @@ func (c *c08Case) runPresence(ctx *core.Ctx) {
 	if c.Entry == "renderstring" && has(0) {
 		return // a string template has no front-matter
 	}
-	if c.Var == "K" && c.Fill == "map" {
+	if c.Var == "K" && (c.Fill == "map" || c.Fill == "typedmap") {
 		return
+	}
+	if c.Type == "nilfill" && c.Fill == "typedmap" {
+		return
+	}
+	if c.Type == "zerofill" && (!has(1) || (c.Read != "must" && c.Read != "get")) {
+		return // the zero value is falsy: only the printing positions tell it from an absent key
 	}
 	if c.Type == "nilfill" && (c.Fill != "map" || !has(1)) {
 		return // a nil struct field is the unconstrained zone below; without Fill the type adds nothing
@@ -139,8 +172,46 @@ func (c *c08Case) runPresence(ctx *core.Ctx) {
 			s.K = fv
 		}
 		fill = s
+	case "typedmap":
+		// a map with string keys that is not a map[string]any
+		switch c.Type {
+		case "string":
+			m := map[string]string{"other": "o"}
+			if has(1) {
+				m[c.Var] = fv.(string)
+			}
+			fill = m
+		case "int", "zerofill":
+			m := map[string]int{"other": 9}
+			if has(1) {
+				m[c.Var] = fv.(int)
+			}
+			fill = m
+		default:
+			m := map[string][]any{"other": nil}
+			if has(1) {
+				m[c.Var], _ = fv.([]any)
+			}
+			fill = &m
+		}
+	case "embedded":
+		s := c08FillEmb{Other: "o"}
+		if has(1) {
+			s.K = fv
+		}
+		fill = s
+	case "tagopt":
+		s := c08FillOpt{Other: "o"}
+		if has(1) {
+			s.K = fv
+		}
+		fill = s
+		if n, isInt := fv.(int); isInt && has(1) {
+			// a typed field: its zero value is a value like any other
+			fill = c08FillOptInt{K: n, Other: "o"}
+		}
 	}
-	if !has(1) && c.Fill != "map" {
+	if !has(1) && c.Fill != "map" && c.Fill != "typedmap" {
 		// a struct always "mentions" its fields: K is present with a nil value. Whether a nil
 		// field counts as defining the key is not stated.
 		ctx.Zone("struct-fill-with-nil-field")
@@ -583,7 +654,7 @@ func init() {
 	core.Register(&core.Check{
 		ID:    "C08",
 		Level: "model_checking",
-		Rule: "presence part: all 2^5 subsets of {front-matter, Fill, Assign, data/a.yml, theme.yml} defining the key x Fill/Assign order x Load before/after x Fill datum {map, struct, *struct} x name {JSON tag, Go field} x value type {string,int,list} x read position {{{ }}, v-if ==, :attr, expression, Get} x entry point {Load+Render, RenderFile, RenderString}; " +
+		Rule: "presence part: all 2^5 subsets of {front-matter, Fill, Assign, data/a.yml, theme.yml} defining the key x Fill/Assign order x Load before/after x Fill datum {map, struct, *struct, struct with omitempty tags, typed map / pointer to map, struct with the key as a promoted field} x name {JSON tag, Go field} x value type {string,int,list,nil,zero} x read position {{{ }}, v-if ==, :attr, expression, Get} x entry point {Load+Render, RenderFile, RenderString}; " +
 			"vue part: every sequence of <=3 Vue.Render calls of one front-matter page (which defaults a variable with a <template v-if>) with data nil / empty / map / map overriding a front-matter key / typed map on one engine, each call judged by its own data; " +
 			"history part: explicit-state search over all sequences of {Fill(k), Fill(j only), Fill(struct), Assign(k), Assign(j), New, Load(with fm), Load(plain), Fill(nil)} on a tree of <=3 templates, each replayed on a fresh engine made with NewFS(fs) and - without the Load operations - with New() (no file system, no config layer); after every step every live template is observed (render + Get) against a layered reference model, and templates other than the target must be unchanged. states = distinct (model, observation) states; non-trivial = all",
 		Bounds:      map[string]string{"quick": "history depth <= 4", "thorough": "history depth <= 6"},
@@ -611,9 +682,9 @@ func init() {
 			for mask := 0; mask < 32; mask++ {
 				for _, order := range []string{"FA", "AF"} {
 					for _, la := range []string{"first", "last"} {
-						for _, fill := range []string{"map", "struct", "ptr"} {
+						for _, fill := range []string{"map", "struct", "ptr", "tagopt", "typedmap", "embedded"} {
 							for _, v := range []string{"k", "K"} {
-								for _, typ := range []string{"string", "int", "list", "nilfill"} {
+								for _, typ := range []string{"string", "int", "list", "nilfill", "zerofill"} {
 									for _, rd := range []string{"must", "vif", "bind", "expr", "get"} {
 										for _, en := range []string{"render", "renderfile", "renderstring"} {
 											emit(&c08Case{Part: "presence", Mask: mask, Order: order, LoadAt: la, Fill: fill, Var: v, Type: typ, Read: rd, Entry: en})
